@@ -216,3 +216,93 @@ Proof.
   apply app_nil_r.
 Qed.
 Print Assumptions oneway_silent.
+
+(* ---------- the remaining per-action facts ---------- *)
+
+Theorem continues_needs_more : forall c p w, c_more c = false ->
+  do_action c (AReply true p) w = (ResRefused, w).
+Proof. intros c p w H. cbn [do_action]. rewrite H. reflexivity. Qed.
+Print Assumptions continues_needs_more.
+
+Theorem failed_attempt_writes_nothing : forall c a w,
+  fst (do_action c a w) <> ResOk -> snd (do_action c a w) = w.
+Proof.
+  intros c a w H.
+  destruct a as [cont p|name p|k arg]; cbn [do_action] in *.
+  - destruct cont; [destruct (c_more c)|]; try reflexivity;
+      apply send_message_fail; exact H.
+  - destruct (error_name_ok name); [|reflexivity]. apply send_message_fail; exact H.
+  - apply send_message_fail; exact H.
+Qed.
+Print Assumptions failed_attempt_writes_nothing.
+
+Theorem reply_error_accept_iff : forall c name p w,
+  fst (do_action c (AReplyError name p) w) = ResRefused <-> error_name_ok name = false.
+Proof.
+  intros c name p w. cbn [do_action].
+  destruct (error_name_ok name); split; intro H; try reflexivity; try discriminate.
+  exfalso. exact (send_message_not_refused _ _ _ H).
+Qed.
+Print Assumptions reply_error_accept_iff.
+
+Theorem error_name_ok_iff : forall name,
+  error_name_ok name = true <->
+  exists r, last_index_of 46 name = Some (S r) /\ firstn (S r) name <> org_varlink_service.
+Proof.
+  intro name. unfold error_name_ok.
+  destruct (last_index_of 46 name) as [[|r]|]; split; intro H;
+    try discriminate; try (destruct H as (r0 & H0 & _); discriminate).
+  - exists r. split; [reflexivity|].
+    apply negb_true_iff, bytes_eqb_neq in H. exact H.
+  - destruct H as (r0 & H0 & Hn). inversion H0; subst r0.
+    apply negb_true_iff, bytes_eqb_neq. exact Hn.
+Qed.
+Print Assumptions error_name_ok_iff.
+
+(* a refused or failed attempt contributes no bytes; an accepted one exactly one frame *)
+Lemma attempt_bytes_ok_frame : forall c a w w',
+  c_oneway c = false -> do_action c a w = (ResOk, w') ->
+  exists bd, action_body a = Some bd /\ attempt_bytes c (mkAtt a ResOk) = frame bd.
+Proof.
+  intros c a w w' Ho H. unfold attempt_bytes. rewrite Ho. cbn [at_result at_action].
+  assert (G : forall body, send_message c body w = (ResOk, w') -> exists bd, body = Some bd).
+  { intros body Hs. unfold send_message in Hs. rewrite Ho in Hs.
+    destruct body as [bd|]; [exists bd; reflexivity|discriminate]. }
+  destruct a as [cont p|name p|k arg]; cbn [do_action action_body] in *.
+  - destruct cont; [destruct (c_more c); [|discriminate]|];
+      destruct (G _ H) as (bd & Hb); rewrite Hb; exists bd; auto.
+  - destruct (error_name_ok name); [|discriminate].
+    destruct (G _ H) as (bd & Hb); rewrite Hb; exists bd; auto.
+  - eexists; split; reflexivity.
+Qed.
+
+(* ---------- non-vacuity ---------- *)
+Module ExA.
+Import String.
+Definition exA_call (ow mo : bool) : call := mkCall (b "org.example.ping.Ping"%string) None mo ow false.
+Definition exA_prog : hprog :=
+  Do (AReply true PNone) (fun r1 =>
+  Do (AReplyError (b "org.varlink.service.Nope"%string) PNone) (fun r2 =>
+  Do (AReply false (PEnc (b "{}"%string))) (fun r3 => Ret (is_error r3)))).
+
+Example exA_refusals_then_one_frame :
+  run_hprog (exA_call false false) exA_prog (mkW [] None) [] =
+  (false, mkW (frame (b "{""parameters"":{}}"%string)) None,
+   [mkAtt (AReply true PNone) ResRefused;
+    mkAtt (AReplyError (b "org.varlink.service.Nope"%string) PNone) ResRefused;
+    mkAtt (AReply false (PEnc (b "{}"%string))) ResOk]).
+Proof. vm_compute. reflexivity. Qed.
+
+Example exA_oneway_writes_nothing :
+  let '(e, w', atts) := run_hprog (exA_call true true) exA_prog (mkW [] None) [] in
+  w_out w' = [] /\ map at_result atts = [ResOk; ResRefused; ResOk].
+Proof. vm_compute. split; reflexivity. Qed.
+
+Example exA_write_failure :
+  run_hprog (exA_call false true) exA_prog (mkW [] (Some 1%nat)) [] =
+  (true, mkW (frame (b "{""continues"":true}"%string)) (Some 0%nat),
+   [mkAtt (AReply true PNone) ResOk;
+    mkAtt (AReplyError (b "org.varlink.service.Nope"%string) PNone) ResRefused;
+    mkAtt (AReply false (PEnc (b "{}"%string))) ResWriteFailed]).
+Proof. vm_compute. reflexivity. Qed.
+End ExA.
